@@ -47,3 +47,166 @@ Proof.
   - repeat constructor; cbn; intuition discriminate.
   - intros e He. cbn in He. cbn. intuition (subst; cbn; auto).
 Qed.
+
+(* ===================================================================================================
+   Graphs with cycles (TracksCyc.v: validate_tracklets with its cycle test, in the order of the code,
+   with the message of each rejected tracklet; proofs in TracksCycLemmas.v).
+   =================================================================================================== *)
+From Coq Require Import Relations.
+From Geff Require Import TracksCyc TracksCycLemmas.
+
+(* has_cycle S: a non-empty directed walk from some x back to x (transitive closure of the edge relation;
+   equivalently a list x, ..., x whose consecutive elements are joined by edges) *)
+Theorem C13_has_cycle_walk : forall E, has_cycle E <-> has_closed_walk E.
+Proof. exact has_cycle_walk. Qed.
+Print Assumptions C13_has_cycle_walk.
+
+(* the cycle test (Kahn peeling with fuel |T|) is sound on every finite digraph: no hypothesis at all *)
+Theorem C13_kahn_sound : forall SE T, is_dag SE T = false -> has_cycle SE.
+Proof. exact kahn_sound. Qed.
+Print Assumptions C13_kahn_sound.
+
+(* ... and complete on every digraph whose edges join nodes of T (any size, any degrees) *)
+Theorem C13_kahn_complete : forall SE T,
+  (forall e, In e SE -> In (fst e) T /\ In (snd e) T) -> has_cycle SE -> is_dag SE T = false.
+Proof. exact kahn_complete. Qed.
+Print Assumptions C13_kahn_complete.
+
+(* as the code applies it, to the induced subgraph of a tracklet *)
+Theorem C13_cycle_test : forall E T, is_dag (induced E T) T = true <-> ~ has_cycle (induced E T).
+Proof. exact is_dag_induced. Qed.
+Print Assumptions C13_cycle_test.
+
+(* next(n for n, d in S.in_degree if d == 0) never raises StopIteration (nor anything else) *)
+Theorem C13_never_raises : forall E NL, NoDup (nodes_of NL) -> exists v, validate_tracklets E NL = Ok v.
+Proof. exact validate_never_raises. Qed.
+Print Assumptions C13_never_raises.
+
+(* the start / end node picked by next(...) does not depend on the iteration order of the subgraph view:
+   once the degree and connectivity tests have passed, any node of in-degree (out-degree) 0 is THE one found *)
+Theorem C13_start_node_unique : forall E r T' u, NoDup (r :: T') ->
+  deg_ok (induced E (r :: T')) (r :: T') = true -> connected E (r :: T') = true ->
+  In u (r :: T') -> preds (induced E (r :: T')) u = [] ->
+  start_node (induced E (r :: T')) (r :: T') = Some u.
+Proof. exact start_node_any. Qed.
+Print Assumptions C13_start_node_unique.
+
+Theorem C13_end_node_unique : forall E r T' u, NoDup (r :: T') ->
+  deg_ok (induced E (r :: T')) (r :: T') = true -> connected E (r :: T') = true ->
+  In u (r :: T') -> succs (induced E (r :: T')) u = [] ->
+  end_node (induced E (r :: T')) (r :: T') = Some u.
+Proof. exact end_node_any. Qed.
+Print Assumptions C13_end_node_unique.
+
+(* MAIN THEOREM, no acyclicity hypothesis: for every digraph (cycles, 2-cycles, self loops) and labelling
+   (no size bound; node ids unique, edges between listed nodes) the validator returns (True, []) iff
+   (L) adjacent nodes share a tracklet id exactly when their edge is the only one leaving its source and
+       the only one entering its target,
+   (C) every tracklet is weakly connected, and
+   (P) no tracklet contains a directed cycle: there is no closed walk inside the subgraph induced by a class
+       (so a class is a path, not a cycle; a cycle elsewhere in the graph is irrelevant). *)
+Theorem C13_iff_all : forall E NL, wf_labelled E NL ->
+  (validate_tracklets E NL = Ok (true, []) <-> spec_all E NL).
+Proof. exact tracklets_iff_all. Qed.
+Print Assumptions C13_iff_all.
+
+(* on acyclic graphs the extended definition is (L)/\(C) ... *)
+Theorem C13_spec_all_acyclic : forall E NL, acyclic E -> (spec_all E NL <-> L_spec E NL /\ C_spec E NL).
+Proof. exact spec_all_acyclic. Qed.
+Print Assumptions C13_spec_all_acyclic.
+
+(* ... so the statement of the property (acyclic graphs) is a corollary, now for the validator with its cycle test *)
+Corollary C13_iff_acyclic : forall E NL, acyclic E -> wf_labelled E NL ->
+  (validate_tracklets E NL = Ok (true, []) <-> L_spec E NL /\ C_spec E NL).
+Proof. exact tracklets_iff_acyclic. Qed.
+Print Assumptions C13_iff_acyclic.
+
+(* ... and the model of the first half (no cycle test) names the same tracklets *)
+Theorem C13_models_agree_acyclic : forall E NL, acyclic E -> NoDup (nodes_of NL) ->
+  exists l, validate_tracklets E NL = Ok (match l with [] => true | _ :: _ => false end, l) /\
+            map fst l = invalid_tracklets E NL.
+Proof.
+  intros E NL Ha Hnd. destruct (validate_total E NL Hnd) as [l [H1 H2]]. exists l. split; [exact H1|].
+  rewrite H2. apply invalid_all_acyclic. exact Ha.
+Qed.
+Print Assumptions C13_models_agree_acyclic.
+
+(* the messages name exactly the invalid tracklets: those that are not a maximal unbranched path
+   (class_ok: connected, inner edges linking, no linking edge across the boundary) or contain a cycle *)
+Theorem C13_names_all : forall E NL b l t, NoDup (nodes_of NL) -> validate_tracklets E NL = Ok (b, l) ->
+  (In t (map fst l) <-> In t (labels_of NL) /\ ~ class_ok_all E (class_of NL t)).
+Proof. exact tracklets_names_all. Qed.
+Print Assumptions C13_names_all.
+
+(* "Cycle detected" is the message of t exactly when the subgraph induced by t has in/out-degrees <= 1
+   (it is a disjoint union of simple paths and simple cycles) and contains a directed cycle *)
+Theorem C13_cycle_message : forall E NL b l t, validate_tracklets E NL = Ok (b, l) ->
+  (In (t, RCycle) l <->
+   In t (labels_of NL) /\ deg_ok (induced E (class_of NL t)) (class_of NL t) = true /\
+   has_cycle (induced E (class_of NL t))).
+Proof. exact cycle_message. Qed.
+Print Assumptions C13_cycle_message.
+
+(* non-vacuity on cyclic graphs.  E3 = simple cycle 1->2->3->1 next to a chain 4->5.
+   One label on the cycle: "Cycle detected" (and only that tracklet is named); cutting the cycle anywhere gives
+   "not maximal"; so no labelling of a graph with an isolated cycle is valid, while the chain {4,5} is accepted.
+   2-cycle 1->2->1 and self loop 1->1: "Cycle detected".  A cycle through a division (1->2->1, 2->3) with {1,2}:
+   the degree test passes, the cycle test fires first.  A cycle outside the tracklets (1->2->1 where both nodes
+   also feed the merge 3) does not hurt: {1},{2},{3} is valid although the graph is cyclic. *)
+Example C13_nonvacuous_cyclic :
+  let E3 := [(1, 2); (2, 3); (3, 1); (4, 5)] in
+  wf_labelled E3 [(1, 7); (2, 7); (3, 7); (4, 8); (5, 8)] /\
+  has_cycle E3 /\ has_cycle [(1, 2); (2, 1); (1, 3); (2, 3)] /\
+  validate_tracklets E3 [(1, 7); (2, 7); (3, 7); (4, 8); (5, 8)] = Ok (false, [(7, RCycle)]) /\
+  validate_tracklets E3 [(1, 7); (2, 7); (3, 9); (4, 8); (5, 8)] = Ok (false, [(7, RBack 3); (9, RBack 2)]) /\
+  validate_tracklets [(1, 2); (2, 1)] [(1, 7); (2, 7)] = Ok (false, [(7, RCycle)]) /\
+  validate_tracklets [(1, 1)] [(1, 7)] = Ok (false, [(7, RCycle)]) /\
+  validate_tracklets [(1, 2); (2, 1); (2, 3)] [(1, 7); (2, 7); (3, 8)] = Ok (false, [(7, RCycle)]) /\
+  invalid_tracklets [(1, 2); (2, 1)] [(1, 7); (2, 7)] = [] /\
+  validate_tracklets [(1, 2); (2, 1); (1, 3); (2, 3)] [(1, 7); (2, 8); (3, 9)] = Ok (true, []).
+Proof.
+  cbv zeta. split; [|split; [|split; [|vm_compute; repeat split]]].
+  - split.
+    + repeat constructor; cbn; intuition discriminate.
+    + intros e He. cbn in He. cbn. intuition (subst; cbn; auto).
+  - exists 1. apply (t_trans _ _ 1 2 1); [apply t_step; unfold estep; cbn; tauto|].
+    apply (t_trans _ _ 2 3 1); apply t_step; unfold estep; cbn; tauto.
+  - exists 1. apply (t_trans _ _ 1 2 1); apply t_step; unfold estep; cbn; tauto.
+Qed.
+
+(* ---------------------------------------------------------------------------------------------------
+   "maximal unbranched path", literally (TracksPathLemmas.v): is_path E T -- the nodes of T can be listed
+   x1..xk without repetition so that the edges of the graph among them are exactly x1->x2, .., x(k-1)->xk.
+   --------------------------------------------------------------------------------------------------- *)
+From Geff Require Import TracksPathLemmas.
+
+(* a class passes (is not named) iff it is a simple directed path whose edges are all "the only edge leaving its
+   source and entering its target" and which no such edge of the graph enters or leaves *)
+Theorem C13_class_path_iff : forall E r T', NoDup (r :: T') ->
+  (class_ok_all E (r :: T') <-> max_unbranched_path E (r :: T')).
+Proof. exact path_class_iff. Qed.
+Print Assumptions C13_class_path_iff.
+
+(* (L)/\(C)/\(P) is: every tracklet is a maximal unbranched path *)
+Theorem C13_spec_all_paths : forall E NL, wf_labelled E NL -> (spec_all E NL <-> spec_paths E NL).
+Proof. exact spec_all_paths. Qed.
+Print Assumptions C13_spec_all_paths.
+
+(* the validator returns (True, []) iff every tracklet is a maximal unbranched path of the graph (any digraph) *)
+Theorem C13_iff_paths : forall E NL, wf_labelled E NL ->
+  (validate_tracklets E NL = Ok (true, []) <-> spec_paths E NL).
+Proof. exact tracklets_iff_paths. Qed.
+Print Assumptions C13_iff_paths.
+
+(* non-vacuity: in 1->2->3 with a division at 3 (3->4, 3->5) the class {1,2,3} is a maximal unbranched path
+   (listing 1,2,3); the ring 1->2->3->1 is not a path *)
+Example C13_paths_nonvacuous :
+  max_unbranched_path [(1, 2); (2, 3); (3, 4); (3, 5)] [2; 3; 1] /\
+  ~ max_unbranched_path [(1, 2); (2, 3); (3, 1)] [1; 2; 3].
+Proof.
+  split.
+  - apply path_class_iff; [repeat constructor; cbn; intuition discriminate|].
+    apply check_class_all_spec; [repeat constructor; cbn; intuition discriminate | vm_compute; reflexivity].
+  - intros H. apply path_class_iff in H; [|repeat constructor; cbn; intuition discriminate].
+    apply check_class_all_spec in H; [|repeat constructor; cbn; intuition discriminate]. vm_compute in H. discriminate.
+Qed.
